@@ -1052,6 +1052,11 @@ func RunFamily(c *core.Ctx, p Plan) {
 		}
 		HammerStage(c, p.What, n, rounds, 1)
 	}
+	if p.Fam == "retain" && !c.Quick() {
+		// history across brokers: two brokers whose stores answer each other's surveys (emitter matcher; with the mqtt
+		// matcher no survey is ever answered and the reply stays local)
+		ClusterStage(c, p.What, 2, true, []string{"retain"}, 25, 14)
+	}
 	if p.Fam == "presence" && !c.Quick() {
 		// two brokers whose surveyors are started and told they have a peer: a status request then really surveys the
 		// cluster (and, no handler being registered for presence queries, still lists the requester's broker only)
